@@ -603,6 +603,84 @@ def _ilsdrf_tree_2_0_1(pA: bool, pM: bool, pB: bool, pL: bool, fA1: bool, fM: bo
     return _tree_case('/t/chA/' + TSA, False, True, pA, pM, pB, pL, fA1, fM, inc_drf, inc_dmd, p_drf, p_dmd)
 
 
+class FakeDT:
+    """integer-backed stand-in for datetime.datetime (whole seconds): `wall` = seconds of the wall-clock fields since 1970-01-01 00:00:00,
+    `off` = UTC offset in seconds of an aware value.  Semantics of the real class: subtracting an aware datetime from a naive one raises
+    TypeError; replace(tzinfo=) keeps the wall-clock fields; astimezone() keeps the instant; aware - aware compares instants."""
+    def __init__(self, wall, off, aware): self.wall = wall; self.off = off; self.aware = aware
+    @property
+    def tzinfo(self): return FakeTZ(self.off) if self.aware else None
+    def utcoffset(self): return TD(self.off) if self.aware else None
+    def replace(self, tzinfo=True, **kw):
+        if kw: raise NotImplementedError('FakeDT.replace of fields')
+        if tzinfo is True: return FakeDT(self.wall, self.off, self.aware)
+        if tzinfo is None: return FakeDT(self.wall, 0, False)
+        return FakeDT(self.wall, _tzoff(tzinfo), True)
+    def astimezone(self, tz=None):
+        inst = self.wall - self.off if self.aware else self.wall       # a naive value is local time; the harness runs with TZ=UTC
+        o = _tzoff(tz) if tz is not None else 0
+        return FakeDT(inst + o, o, True)
+    def timestamp(self): return self.wall - self.off if self.aware else self.wall
+    def __sub__(self, o):
+        if isinstance(o, FakeDT):
+            if o.aware != self.aware: raise TypeError("can't subtract offset-naive and offset-aware datetimes")
+            return TD((self.wall - self.off) - (o.wall - o.off)) if self.aware else TD(self.wall - o.wall)
+        if isinstance(o, (TD, datetime.timedelta)): return FakeDT(self.wall - TD._v(o), self.off, self.aware)
+        if hasattr(o, 'utctimetuple'):
+            # a real datetime (util.epoch): its instant from its fields, without datetime arithmetic
+            if (o.tzinfo is None) == self.aware: raise TypeError("can't subtract offset-naive and offset-aware datetimes")
+            import calendar
+            oi = calendar.timegm(o.utctimetuple())
+            return TD((self.wall - self.off if self.aware else self.wall) - oi)
+        return NotImplemented
+
+
+class FakeTZ:
+    def __init__(self, off): self.off = off
+    def utcoffset(self, dt): return TD(self.off)
+
+
+def _tzoff(tz):
+    if isinstance(tz, FakeTZ): return tz.off
+    d = tz.utcoffset(None)
+    return d.days * 86400 + d.seconds
+
+
+def _ilsdrf_window(ws: int, offs: int, aws: bool, we: int, offe: int, awe: bool, has_s: bool, has_e: bool) -> bool:
+    """
+    pre: 0 <= ws <= 4 * 10**9 and 0 <= we <= 4 * 10**9 and -86399 <= offs <= 86399 and -86399 <= offe <= 86399
+    post: _
+    """
+    # the time window handed to the per-channel listing is the INSTANT of starttime / endtime (seconds since the epoch): a naive datetime is
+    # taken as UTC, an aware one is converted (its UTC offset subtracted), None stays None
+    rec = []
+    def ymf(root, dirs, props, inc_drf, inc_dmd, starttime=None, endtime=None, reverse=False):
+        rec.append((starttime, endtime)); return iter(())
+    tree = _mk_tree(True, True, True, True, True, True)
+    old = L._yield_matching_files
+    L._yield_matching_files = ymf
+    try:
+        def walk(top):
+            dirs, files = list(tree[top][0]), list(tree[top][1])
+            yield top, dirs, files
+            for d in list(dirs):
+                for x in walk(top + '/' + d): yield x
+        oldw = (L.os.walk, L.os.listdir)
+        L.os.walk = walk; L.os.listdir = lambda path: list(tree[path][0]) + list(tree[path][1])
+        try:
+            list(L.ilsdrf('/t', starttime=FakeDT(ws, offs, aws) if has_s else None, endtime=FakeDT(we, offe, awe) if has_e else None))
+        finally:
+            L.os.walk, L.os.listdir = oldw
+    finally:
+        L._yield_matching_files = old
+    es = (ws - offs if aws else ws) if has_s else None
+    ee = (we - offe if awe else we) if has_e else None
+    def same(t, e):
+        if e is None: return t is None
+        return isinstance(t, (TD, datetime.timedelta)) and TD._v(t) == e
+    return len(rec) >= 1 and all(same(r[0], es) and same(r[1], ee) for r in rec)
+
+
 def _ilsdrf_tree_witness(pB: bool, inc_drf: bool) -> bool:
     """
     post: _
